@@ -479,7 +479,9 @@ class DevInfoResponse(Spec):
     sub = 14
 
     def shapes(self, tier):
-        q = [((0, 1),), ((0, 2), (1, 1))]
+        # (the (90, 40) shape fills more than half of the 253-byte budget: repeated encodes must not carry a budget over;
+        #  it is not last, so that C03's "largest quick shape" stays small)
+        q = [((0, 1),), ((0, 90), (1, 40)), ((0, 2), (1, 1))]
         return q if tier == "quick" else q + [((0, 0),), ((1, 1), (2, 1), (0x80, 1)), ((0, 244),)]
 
     def blen(self, sh):
